@@ -161,6 +161,9 @@ def make_plan(rng, comps=None, nmembers=None, big=True, ascii_only=False):
         date, time = rand_stamp(rng)
         attr = rng.choice([0x20, 0, 0x01, 0x40, 0x41, 0x02, 0x04, 0x21, 0x27, 0x67, rng.getrandbits(7) & 0x67]) | (0x80 if u else 0)
         members.append(dict(name=nm, utf8=u, data=rand_data(rng, size)[:size], attribs=attr, date=date, time=time, folder=rng.randrange(nf)))
+    return layout_plan(rng, members, comps, style)
+
+def layout_plan(rng, members, comps, style):
     members.sort(key=lambda m: m["folder"])
     used = sorted(set(m["folder"] for m in members))
     for m in members: m["folder"] = used.index(m["folder"])
@@ -435,7 +438,7 @@ def option_sets(rng, plan_names_ascii):
     pats = []
     if rng.random() < 0.45:
         pats = rng.sample(PATTERNS, rng.choice([1, 1, 2]))
-    dest = rng.choice([None, "out", "out", "new/deep dir"])
+    dest = rng.choice([None, "out", "out", "new/deep dir", "out/", "new/deep dir/"])
     umask = rng.choice([0o022, 0o022, 0o077, 0o027, 0o000])
     return opts, pats, dest, umask
 
@@ -474,6 +477,27 @@ def normal_cases(rng, n):
         if any((not m["utf8"]) and any(c >= 0x80 for c in m["name"]) for m in p1["members"] + p2["members"]):
             pats = []; opts = [o for o in opts if o != "-L"]
         yield Case("two-in-one", {"both.bin": c1 + c2}, [b"both.bin"], [p1["members"], p2["members"]], opts, pats, umask, dest, desc="two cabinets concatenated in one file")
+
+def skip_cases(rng, n):
+    """-F selects an early member of a multi-block compressed folder but not the rest of it, and a member of a later
+    (stored or compressed) folder: what the abandoned folder leaves behind in the decompressor must not reach the next"""
+    for i in range(n):
+        members = []
+        sizes0 = [rng.choice([100, 3000]), rng.choice([33000, 40000]), rng.choice([1000, 30000])]
+        for k, size in enumerate(sizes0):
+            date, time = rand_stamp(rng)
+            members.append(dict(name=b"a%d.txt" % k, utf8=False, data=rand_data(rng, size)[:size], attribs=0x20, date=date, time=time, folder=0))
+        for k in range(rng.choice([1, 2])):
+            size = rng.choice([16, 500, 5000]); date, time = rand_stamp(rng)
+            members.append(dict(name=b"b%d.dat" % k, utf8=False, data=rand_data(rng, size)[:size], attribs=0x20, date=date, time=time, folder=1))
+        if rng.random() < 0.5:
+            date, time = rand_stamp(rng)
+            members.append(dict(name=b"c0.txt", utf8=False, data=rand_data(rng, 700)[:700], attribs=0x20, date=date, time=time, folder=2))
+        plan = layout_plan(rng, members, [rng.choice([1, 1, 0]), rng.choice([0, 0, 1]), rng.choice([0, 1])], "flat")
+        cab, _ = build_single(plan)
+        pats = rng.choice([["a0.txt", "b0.dat"], ["a0.txt", "b*"], ["a1.txt", "b0.dat", "c0.txt"], ["a0.txt", "c*", "b1.dat"], ["b0.dat"], ["a0.txt"]])
+        opts = [o for o in option_sets(rng, True)[0] if o != "-s"]
+        yield Case("single-skip", {"x.cab": cab}, [b"x.cab"], [plan["members"]], opts, pats, 0o022, rng.choice([None, "out"]), desc="-F skips the rest of a multi-block folder")
 
 def split_cases(rng, n):
     if vcab is None: return
@@ -779,6 +803,7 @@ def custom_run(ctx, res, cw):
     quick = ctx.tier == "quick"
     cases = []
     cases += list(normal_cases(rng, 70 if quick else 2500))
+    cases += list(skip_cases(rng, 10 if quick else 300))
     cases += list(split_cases(rng, 8 if quick else 250))
     cases += list(fail_cases(rng, 24 if quick else 600))
     STATS["plans"] += len(cases)
